@@ -6,6 +6,7 @@ package olareg
 // background jobs (collection ticker, cache timers, eviction goroutines) are scheduled around it.
 
 import (
+	"encoding/json"
 	"fmt"
 	"os"
 	"path/filepath"
@@ -90,6 +91,25 @@ func (w *World) exec(op Op) {
 		w.opGCWait(op)
 	case "gcpass":
 		w.opGCPass(op)
+	case "badentry":
+		// another tool wrote an entry with a malformed digest into index.json (nothing behind it, nothing the API could create)
+		if w.root != "" && w.k.Store == "dir" && !w.switched {
+			// (while the registry is down: a running store cannot know that the file changed under it)
+			w.opRestart()
+			defer w.opTags(Op{K: "tags", Repo: op.Repo})
+			ip := filepath.Join(w.root, w.repoName(op.Repo), "index.json")
+			if b, err := os.ReadFile(ip); err == nil {
+				var doc map[string]any
+				if json.Unmarshal(b, &doc) == nil {
+					ms, _ := doc["manifests"].([]any)
+					doc["manifests"] = append(ms, map[string]any{"mediaType": mtOCIManifest, "digest": "sha256:0123456789abcdef", "size": 10})
+					if nb, err := json.Marshal(doc); err == nil && os.WriteFile(ip, nb, 0644) == nil {
+						_ = os.Chtimes(ip, time.Now(), time.Now())
+						w.x.out.probe("foreign-entry-with-malformed-digest")
+					}
+				}
+			}
+		}
 	case "rmrepo":
 		if w.root != "" {
 			w.settle()
